@@ -896,14 +896,18 @@ class RuleReferenceResolve(Contract):
     """SigmaRuleReference.resolve: the rule the collection finds under the reference AS WRITTEN; aliases resolve every reference of their mapping"""
     id = "C09.SigmaRuleReference.resolve"
     target = f"{COR}:SigmaRuleReference.resolve"
-    props = ("C09", "C10")
+    props = ("C09", "C10", "C15")
+    cases = ("fresh", "resolved-before")
 
-    def args(self, I):
+    def args(self, I, case):
         asked = []
         found = SObj("Rule", {})
         ref = I.fresh("reference", "str")
         col = SObj("Collection", {"__getitem__": NativeFn("__getitem__", lambda I2, a, k: (asked.append(a[0]), found)[1])})
-        me = SObj(I.E.index.lookup(f"{COR}:SigmaRuleReference"), {"reference": ref}, lazy=True)
+        f = {"reference": ref}
+        if case == "resolved-before":        # the reference object was resolved in ANOTHER collection earlier: this collection decides now
+            f["rule"] = SObj("RuleOfAnotherCollection", {})
+        me = SObj(I.E.index.lookup(f"{COR}:SigmaRuleReference"), f)
         return {"self": me, "args": [col], "asked": asked, "found": found, "ref": ref}
 
     def post(self, I, inp, r):
